@@ -33,6 +33,8 @@ def children(t):
         return list(t[1])
     if k == 'lv':
         return [t[3]]
+    if k == 'at':
+        return [t[1], t[2]]
     return []
 
 
@@ -86,6 +88,8 @@ def rebuild(t, f):
             r = mk_phi([go(v, depth + 1) for v in x[1]])
         elif k == 'lv':
             r = ('lv', x[1], x[2], go(x[3], depth + 1))
+        elif k == 'at':
+            r = ('at', go(x[1], depth + 1), go(x[2], depth + 1))
         else:
             r = x
         r = f(r)
@@ -119,6 +123,8 @@ def versionless(t):
                 return c[2][x[2]]
             return x
         if x[0] == 'obj':
+            return x[1]
+        if x[0] == 'at':
             return x[1]
         return x
     return rebuild(t, f)
